@@ -1,31 +1,40 @@
-(* C20 -- Session._set_keyspace_for_all_pools over HostConnection pools (repaired code).
+(* C20 -- Session._set_keyspace_for_all_pools over the session's pools (repaired code).
    Keyspaces: 1 = the old one, 2 = the one being selected.  NO proofs here.
-   A pool's scripted outcome: what its connection will answer to USE (ok / invalid keyspace / anything else =
-   connection error), or that it has no open connection / is shut down / already has the keyspace selected. *)
+   A pool's scripted outcome for one switch: what its connection answers to USE (ok / invalid keyspace / anything else =
+   connection error), or that it has no open connection / is shut down / already has the keyspace selected.
+   k_legacy marks a HostConnectionPool (protocol v1/v2); PEmptyV2 = such a pool with no connection at the moment.
+   k_srv is the keyspace actually selected on the server side of the pool's connection (ghost: the harness knows it because
+   it plays the server); k_connks is what the driver believes (Connection.keyspace). *)
 From Coq Require Import ZArith List Bool.
 From Verif Require Import Pool.
 Import ListNotations.
 Local Open Scope Z_scope.
 
-Inductive outcome := POk | PInvalid | PConnErr | PNoConn | PShut | PSame.
+Inductive outcome := POk | PInvalid | PConnErr | PNoConn | PShut | PSame | PEmptyV2
+  | PDeadErr     (* the connection is already defunct when its USE is answered (ConnectionShutdown from error_all_requests) *)
+  | PLost.       (* HostConnection whose connection died before the switch: no connection, a _replace task is queued *)
 
 Record kpool := mkK {
   k_out : outcome;
-  k_ks : Z;          (* HostConnection._keyspace: what _replace selects on the next connection *)
-  k_has : bool;      (* pool._connection is not None *)
+  k_legacy : bool;
+  k_ks : Z;          (* pool._keyspace: what HostConnection._replace selects on the next connection *)
+  k_has : bool;      (* the pool has an open connection *)
   k_shut : bool;     (* pool.is_shutdown *)
-  k_connks : Z;      (* keyspace of the pool's (original) connection, -1 if it never had one *)
+  k_connks : Z;      (* Connection.keyspace of the pool's connection (the last one it had), -1 if it never had one *)
   k_inflight : Z;    (* in_flight of that connection, -1 if none *)
   k_pending : bool;  (* a USE request is outstanding on the connection *)
-  k_failed : bool    (* ghost: the USE on this pool's connection has failed *)
+  k_failed : bool;   (* ghost: the USE of the current switch failed on this pool's connection *)
+  k_srv : Z          (* ghost: keyspace selected on the server side of that connection *)
 }.
 
 Definition init_pool (o : outcome) : kpool :=
   match o with
-  | PNoConn => mkK o 1 false false (-1) (-1) false false
-  | PShut => mkK o 1 false true 1 0 false false
-  | PSame => mkK o 1 true false 2 0 false false
-  | _ => mkK o 1 true false 1 0 false false
+  | PNoConn => mkK o false 1 false false (-1) (-1) false false (-1)
+  | PEmptyV2 => mkK o true 1 false false (-1) (-1) false false (-1)
+  | PShut => mkK o false 1 false true 1 0 false false 1
+  | PLost => mkK o false 1 false false 1 0 false false 1
+  | PSame => mkK o false 1 true false 2 0 false false 2
+  | _ => mkK o false 1 true false 1 0 false false 1
   end.
 
 Record kstate := mkS {
@@ -39,11 +48,25 @@ Record kstate := mkS {
 
 Definition kinit (outs : list outcome) : kstate := mkS (map init_pool outs) 1 false [] [] [].
 
-(* HostConnection._set_keyspace_for_all_conns + Connection.set_keyspace_async up to the point where they return *)
+(* the same pools facing another switch (e.g. the application retries the USE): fresh scripted outcomes, nothing pending *)
+Definition reset_pool (p : kpool) (o : outcome) : kpool :=
+  mkK o (k_legacy p) (k_ks p) (k_has p) (k_shut p) (k_connks p) (k_inflight p) false false (k_srv p).
+Fixpoint reset_pools (ps : list kpool) (outs : list outcome) : list kpool :=
+  match ps, outs with
+  | p :: ps', o :: outs' => reset_pool p o :: reset_pools ps' outs'
+  | p :: ps', [] => reset_pool p (k_out p) :: reset_pools ps' []
+  | [], _ => []
+  end.
+Definition reinit (s : kstate) (outs : list outcome) : kstate := mkS (reset_pools (pools s) outs) (sess_ks s) false [] [] [].
+
+(* _set_keyspace_for_all_conns + Connection.set_keyspace_async up to the point where they return *)
 Definition start_pool (p : kpool) : kpool :=
-  if k_shut p || negb (k_has p) then mkK (k_out p) 2 (k_has p) (k_shut p) (k_connks p) (k_inflight p) false (k_failed p)
-  else if k_connks p =? 2 then mkK (k_out p) 2 true false 2 (k_inflight p) false (k_failed p)   (* in_flight +1, callback, return_connection -1 *)
-  else mkK (k_out p) 2 true false (k_connks p) (k_inflight p + 1) true (k_failed p).
+  if k_legacy p && negb (k_has p)
+  then (* HostConnectionPool with no connection: calls back at once, before `self._keyspace = keyspace` *)
+       mkK (k_out p) true (k_ks p) false (k_shut p) (k_connks p) (k_inflight p) false (k_failed p) (k_srv p)
+  else if k_shut p || negb (k_has p) then mkK (k_out p) (k_legacy p) 2 (k_has p) (k_shut p) (k_connks p) (k_inflight p) false (k_failed p) (k_srv p)
+  else if k_connks p =? 2 then mkK (k_out p) (k_legacy p) 2 true false 2 (k_inflight p) false (k_failed p) (k_srv p)   (* in_flight +1, callback, return_connection -1 *)
+  else mkK (k_out p) (k_legacy p) 2 true false (k_connks p) (k_inflight p + 1) true (k_failed p) (k_srv p).
 
 Fixpoint pending_from (i : nat) (l : list kpool) : list nat :=
   match l with [] => [] | p :: t => if k_pending p then i :: pending_from (S i) t else pending_from (S i) t end.
@@ -57,12 +80,18 @@ Fixpoint eins (i : nat) (e : Z) (l : list (nat * Z)) : list (nat * Z) :=
 (* process_result + connection_finished_setting_keyspace (return_connection) for pool p *)
 Definition complete_pool (p : kpool) : kpool * option Z :=
   match k_out p with
-  | POk => (mkK (k_out p) (k_ks p) true (k_shut p) 2 (k_inflight p - 1) false (k_failed p), None)
-  | PInvalid => (mkK (k_out p) (k_ks p) true (k_shut p) (k_connks p) (k_inflight p - 1) false true, Some 1)
-  | _ => (mkK (k_out p) (k_ks p) false (k_shut p) (k_connks p) (k_inflight p - 1) false true, Some 2)  (* defunct: _connection = None *)
+  | POk => (mkK (k_out p) (k_legacy p) (k_ks p) true (k_shut p) 2 (k_inflight p - 1) false (k_failed p) 2, None)
+  | PInvalid => (mkK (k_out p) (k_legacy p) (k_ks p) true (k_shut p) (k_connks p) (k_inflight p - 1) false true (k_srv p), Some 1)
+  | _ => (mkK (k_out p) (k_legacy p) (k_ks p) false (k_shut p) (k_connks p) (k_inflight p - 1) false true (k_srv p), Some 2)  (* defunct: connection dropped *)
   end.
 
-Inductive kop := KStart | KComplete (i : nat).
+(* a pool without connection opens one: HostConnection._replace selects pool._keyspace, HostConnectionPool._add_conn_if_under_max
+   selects session.keyspace *)
+Definition reconnect_pool (sk : Z) (p : kpool) : kpool :=
+  let k := if k_legacy p then sk else k_ks p in
+  mkK (k_out p) (k_legacy p) (k_ks p) true false k 0 false (k_failed p) k.
+
+Inductive kop := KStart | KComplete (i : nat) | KReconnect (i : nat).
 
 Definition kstep (s : kstate) (o : kop) : kstate :=
   match o with
@@ -83,6 +112,14 @@ Definition kstep (s : kstate) (o : kop) : kstate :=
           else s
       | None => s
       end
+  | KReconnect i =>
+      match nth_error (pools s) i with
+      | Some p =>
+          if negb (k_has p) && negb (k_shut p) && negb (k_pending p)
+          then mkS (upd i (fun _ => reconnect_pool (sess_ks s) p) (pools s)) (sess_ks s) (started s) (remaining s) (errors s) (calls s)
+          else s
+      | None => s
+      end
   end.
 
 Definition krun (s : kstate) (ops : list kop) : kstate := fold_left kstep ops s.
@@ -91,31 +128,42 @@ Definition krun (s : kstate) (ops : list kop) : kstate := fold_left kstep ops s.
 Definition obs_errs (a : list (nat * Z)) : list Z := 50 :: flat_map (fun x => [Z.of_nat (fst x); snd x; 51]) a.
 Definition obs (tag : Z) (s : kstate) : list Z :=
   [tag; sess_ks s; Z.of_nat (length (calls s))] ++ flat_map obs_errs (calls s)
-  ++ flat_map (fun p => [60; k_ks p; k_connks p; k_inflight p]) (pools s).
+  ++ flat_map (fun p => [60; k_ks p; k_connks p; k_inflight p; k_srv p]) (pools s).
+Definition op_tag (o : kop) : Z := match o with KStart => 1 | KComplete _ => 2 | KReconnect _ => 3 end.
 Fixpoint ktrace (s : kstate) (ops : list kop) : list (list Z) :=
   match ops with
   | [] => []
-  | o :: r => let s' := kstep s o in obs (match o with KStart => 1 | _ => 2 end) s' :: ktrace s' r
+  | o :: r => let s' := kstep s o in obs (op_tag o) s' :: ktrace s' r
   end.
+(* two switches to the same keyspace in a row over the same pools (second one e.g. a retry after an error) *)
+Definition ktrace2 (outs1 : list outcome) (ops1 : list kop) (outs2 : list outcome) (ops2 : list kop) : list (list Z) :=
+  ktrace (kinit outs1) ops1 ++ ktrace (reinit (krun (kinit outs1) ops1) outs2) ops2.
 
 (* ------------------------------------------------------------------------------------------------
    Session.add_or_renew_pool (run_add_or_renew_pool) racing with keyspace switches.  Keyspaces: 0 = None, 1.. = names.
    The new pool reads session.keyspace when it connects; under the session lock it is registered only when its keyspace
    equals the session's, otherwise (`while`) the lock is released for a catch-up USE round trip -- during which further
-   switches (which do not see the unregistered pool) may land -- and the test is repeated.
-   s0: switches landing before the read; s1: after the read, before the lock; rounds: per catch-up round trip. *)
-Fixpoint catchup (pool sess n : Z) (rounds : list (list Z)) : Z * Z * Z :=
-  if pool =? sess then (pool, sess, n) else
+   switches (which do not see the unregistered pool) may land -- and the test is repeated.  A catch-up USE that fails
+   (or times out) shuts the new pool down instead of registering it.
+   s0: switches landing before the read; s1: after the read, before the lock; rounds: per catch-up round trip
+   (did the USE fail?, switches landing meanwhile). *)
+Fixpoint catchup (pool sess n : Z) (rounds : list (bool * list Z)) : bool * Z * Z * Z :=
+  if pool =? sess then (true, pool, sess, n) else
   match rounds with
-  | [] => (sess, sess, n + 1)
-  | r :: rest => catchup sess (last r sess) (n + 1) rest
+  | [] => (true, sess, sess, n + 1)
+  | (fail, r) :: rest =>
+      if fail then (false, pool, last r sess, n + 1)
+      else catchup sess (last r sess) (n + 1) rest
   end.
 
-Definition create_pool (ks0 : Z) (s0 s1 : list Z) (rounds : list (list Z)) : Z * Z * Z :=
+Definition create_pool (ks0 : Z) (s0 s1 : list Z) (rounds : list (bool * list Z)) : bool * Z * Z * Z :=
   let r := last s0 ks0 in
   let sess1 := if r =? 0 then r else last s1 r in      (* no blocking USE (hence no window) when the keyspace read is None *)
   catchup r sess1 0 rounds.
 
-(* [registered; session keyspace; new pool._keyspace; its connection's keyspace; catch-up round trips] *)
-Definition create_obs (ks0 : Z) (s0 s1 : list Z) (rounds : list (list Z)) : list Z :=
-  let '(p, s, n) := create_pool ks0 s0 s1 rounds in [1; s; p; p; n].
+(* [registered; session keyspace; new pool's connection keyspace (server side); catch-up round trips] *)
+Definition create_obs (ks0 : Z) (s0 s1 : list Z) (rounds : list (bool * list Z)) : list Z :=
+  match create_pool ks0 s0 s1 rounds with
+  | (true, p, s, n) => [1; s; p; n]
+  | (false, _, s, n) => [0; s; -1; n]
+  end.
